@@ -324,6 +324,16 @@ def Table.joinCertifiedIn (T : Table) (SC SF : Nat) : Bool :=
 
 def Table.joinCertifiedB (T : Table) : Bool := T.joinCertifiedIn (T.reach .controller) (T.reach .filter)
 
+/-- What the translator certifies syntactically about locksets: a row carries a lockset only when its
+    object expression is `this`, and every entry of a lockset is a mutex member.  (The translator records a
+    lock only when the mutex expression is `this->m` in the same function as the access `this->f`, or in a
+    caller that reaches it through calls on `this`: lock and member belong to the same object.) -/
+def Table.locksCertifiedB (T : Table) : Bool :=
+  T.accesses.all fun a => a.locks.isEmpty || (a.self && a.locks.all fun m =>
+    match T.fields[m]? with
+    | some fd => fd.kind == .mutex
+    | none => false)
+
 /-- ids used by the rows and edges exist -/
 def Table.wfB (T : Table) : Bool :=
   (T.accesses.all fun a => decide (a.field < T.fields.length) && decide (a.meth < T.methods.length)) &&
@@ -403,6 +413,19 @@ def Justified (T : Table) (pre : List Ev) : Ev → Prop
       ∃ r ∈ T.accesses, Reach T (T.rootIds t) r.meth ∧ r.field = f ∧ r.kind.isWrite = w ∧ T.fieldSync f = s ∧
         (r.self = true → ∀ m ∈ r.locks, held pre t (o, m) = true)
   | _ => True
+
+/-- The *same-object* reading is part of `Justified`: the row's locks are held on the object `o` whose
+    member is accessed.  `JustifiedAny` drops it (locks held on some object `o'`); `same_object_necessary`
+    (BFL/Proofs/RaceObject.lean) shows that the lockset theorem is false under this weaker reading, i.e. the
+    class-level abstraction "lockset and member belong to the same object" is a necessary hypothesis. -/
+def JustifiedAny (T : Table) (pre : List Ev) : Ev → Prop
+  | .acc t (_, f) w s =>
+      ∃ r ∈ T.accesses, Reach T (T.rootIds t) r.meth ∧ r.field = f ∧ r.kind.isWrite = w ∧ T.fieldSync f = s ∧
+        (r.self = true → ∃ o' : Obj, ∀ m ∈ r.locks, held pre t (o', m) = true)
+  | _ => True
+
+def ConformsAny (T : Table) (tr : List Ev) : Prop :=
+  ∀ pre e post, tr = pre ++ e :: post → JustifiedAny T pre e
 
 /-- every event of the interleaving is justified by the table -/
 def Conforms (T : Table) (tr : List Ev) : Prop :=
